@@ -4,15 +4,17 @@ usage: normconv.py [ID ...] [-v]'''
 import ast, difflib, glob, json, os, shutil, subprocess, sys, tempfile
 sys.path.insert(0, os.path.join(os.path.dirname(os.path.abspath(__file__)), '..'))
 from sa.src import Repo
-from sa import normal
+from sa import normal, equiv
 
 def forms(root):
+    os.environ['PYX_NO_EQUIV'] = '1'
     r = Repo(root)
     N = normal.Normalizer(r.modules)
+    N.run()
     out = {}
     for name, m in r.modules.items():
         for q, fn, cls in N.functions(m.tree, name):
-            out[q] = alpha(fn)
+            out[q] = equiv.alpha(fn)
     return out
 
 def alpha(fn):
